@@ -557,6 +557,22 @@ theorem C15_code_serve_overlapping (tr : Transport) (opts : List (List Stage)) (
   rw [hg, C15_overlap_every_request_served]
   exact (C15_code_serve tr opts h r).1
 
+/-- **A modification is for that request only.** No request handler returns a package-level variable as its result and
+    `handlePing` builds its empty object per call (regenerated): so what a result-modifying middleware writes into the
+    result it was handed — in place — reaches the answer of that request and of no other, on this or any other server of
+    the process. -/
+theorem C15_fact_fresh_results : codeFreshResults = true := by decide
+
+theorem C15_modification_for_that_request_only (m : Nat) : secondAnswerMarks codeFreshResults m = [] := by
+  rw [C15_fact_fresh_results]; rfl
+
+/-- The bad region (seeded change C15-18): `handlePing` returning one package-level `emptyResult` is rejected, and with a
+    shared object the second ping's answer carries the first one's mark. -/
+theorem C15_shared_result_witness :
+    freshResults [(t!"mcpHandler.handlePing", t!"emptyResult")] t!"var:emptyResult" = false ∧
+    freshResults [] t!"var:emptyResult" = false ∧ freshResults [] t!"missing" = false ∧
+    secondAnswerMarks false 7 = [7] := by decide
+
 /-! ## non-vacuity: concrete instances -/
 
 /-- three stages that all call `next`: the full onion, the handler sees the request modification, the result
